@@ -1,4 +1,5 @@
 import BB.Proofs.ByteStreamClient
+import BB.Proofs.ByteStreamStream
 /-!
 # C14 - ByteStream / CAS / AC RPCs: uploads atomic and verified, reads return the exact suffix
 
@@ -248,6 +249,60 @@ theorem C14_read_never_foreign (C : Codec) (F : Flags) (st : Store) (kind : Name
           · intro k hk
             rw [hr] at hk
             exact chunks_mem cs hcs _ k (sendAll_sent_mem _ _ k hk)
+
+/-- **A Read that completes with OK delivered the whole, matching suffix** also when the
+backend streams the object and validates it on the fly: for every medium (any cutting into
+pieces, any I/O error at any point, any content), offset, chunk size and send failure, if the
+RPC returns OK then the medium ended cleanly, what it delivered matches the digest, the offset
+lies inside the object, and the client was sent exactly `content[off:]` (identity: in non-empty
+chunks of at most `cs` bytes; repaired compressed path: its compression).  A failing medium or
+an object that does not match its digest therefore always ends in an error. -/
+theorem C14_read_stream_ok_complete (C : Codec) (F : Flags) (hR : F.strictR = true) (s : Source)
+    (kind : NameKind) (d : Digest) (off limit : Int) (cs : Nat) (hcs : 0 < cs) (failAt : Nat) :
+    let r := readS C F (.ok s) kind d off limit cs failAt
+    r.res = none →
+      s.term = none ∧ Valid C d s.pieces.flatten ∧ 0 ≤ off ∧ off ≤ (d.size : Int) ∧
+      (kind = .identity → r.zdata = none ∧ r.sent.flatten = s.pieces.flatten.drop off.toNat ∧
+        ∀ k ∈ r.sent, k.length ≤ cs ∧ k ≠ []) ∧
+      (kind = .zstd → r.zdata = some (C.enc (s.pieces.flatten.drop off.toNat))) := by
+  intro r hres
+  by_cases hl : limit ≠ 0
+  · simp [r, readS, hl] at hres
+  · cases kind with
+    | bad => simp [r, readS, hl] at hres
+    | unknown => simp [r, readS, hl] at hres
+    | unsupported => simp [r, readS, hl] at hres
+    | identity =>
+      cases hok : offsetOk d.size off with
+      | false => simp [r, readS, hl, hok] at hres
+      | true =>
+        have hin := (offsetOk_iff _ _).mp hok
+        have hr : r = sendAllThen (normalize cs (skipBytes off.toNat (vstart C d 13 s).1)) failAt (vstart C d 13 s).2 := by
+          simp [r, readS, hl, hok]
+        rw [hr] at hres ⊢
+        unfold sendAllThen at hres ⊢
+        by_cases hf : failAt = 0 ∨ (normalize cs (skipBytes off.toNat (vstart C d 13 s).1)).length < failAt
+        · simp only [hf, if_true] at hres ⊢
+          have hv := vstart_ok C d 13 s (vstart C d 13 s).1 (by rw [← hres])
+          refine ⟨hv.1, hv.2.2, hin.1, hin.2, ?_, fun h => by cases h⟩
+          intro _
+          refine ⟨rfl, ?_, fun k hk => normalize_mem cs hcs _ k hk⟩
+          simp only [normalize_flatten cs hcs, skipBytes_flatten, hv.2.1]
+        · simp [hf] at hres
+    | zstd =>
+      cases hok : offsetOk d.size off with
+      | false => simp [r, readS, hl, hok, hR] at hres
+      | true =>
+        have hin := (offsetOk_iff _ _).mp hok
+        simp only [r, readS, hl, hok, hR] at hres ⊢
+        simp only [ne_eq, not_true_eq_false, if_false, Bool.not_true, Bool.false_eq_true, and_false, if_true] at hres ⊢
+        by_cases hc : normalize cs (skipBytes off.toNat (vstart C d 13 s).1) = [] ∧ ¬ (vstart C d 13 s).2 = none
+        · simp only [hc, not_false_eq_true, and_self, if_true] at hres
+          exact absurd hres hc.2
+        · simp only [hc, if_false] at hres ⊢
+          have hv := vstart_ok C d 13 s (vstart C d 13 s).1 (by rw [← hres])
+          refine ⟨hv.1, hv.2.2, hin.1, hin.2, fun h => by cases h, fun _ => ?_⟩
+          simp only [normalize_flatten cs hcs, skipBytes_flatten, hv.2.1]
 
 /-- D6 in the model: the code as pinned ignores `read_offset` on the compressed path. -/
 theorem C14_read_legacy_ignores_offset (C : Codec) (F : Flags) (hR : F.strictR = false) (st : Store)
